@@ -255,6 +255,46 @@ class History:
                     tx, ids = self.open_txs.pop(0)
                     out["rolled_back_ids"] = ids
                     tx.rollback()
+            elif kind == "readd":
+                # re-append (append_files) a data file that an OLDER retained snapshot still references but
+                # the current one does not; mode: ok | fail (pointer write fails) | abandon (exception in the block)
+                from datashard.data_structures import DataFile, FileFormat
+
+                tv = self.last_view
+                cur = tv.current() if tv else None
+                curfiles = set(cur.files) if cur is not None else set()
+                cand = None
+                for sv in (tv.snapshots if tv else []):
+                    for e in sv.entries:
+                        fp = reader.norm(e["data_file"]["file_path"])
+                        if fp not in curfiles and self.blobs().get(fp) is not None:
+                            cand = e["data_file"]
+                            break
+                    if cand:
+                        break
+                if cand is None:
+                    out["skipped"] = True
+                else:
+                    out["readded"] = reader.norm(cand["file_path"])
+                    df = DataFile(file_path="/" + reader.norm(cand["file_path"]), file_format=FileFormat.PARQUET,
+                                  partition_values={}, record_count=cand["record_count"],
+                                  file_size_in_bytes=cand["file_size_in_bytes"], checksum=cand.get("checksum"))
+                    mode = op[1]
+                    if mode == "fail":
+                        out["expect_fail"] = True
+                        plan = FaultPlan(0, lambda: OSError("injected: pointer write failed"),
+                                         match=lambda o: o.name.endswith("write_file") and o.path == "metadata.version-hint.text"
+                                         or o.name.endswith("write_file_cas"))
+                        self.ip.before.append(plan.hook)
+                    try:
+                        with t.new_transaction() as tx:
+                            tx.append_files([df])
+                            if mode == "abandon":
+                                raise KeyError("caller bails out of the with-block")
+                            tx.commit()
+                    finally:
+                        if mode == "fail":
+                            self.ip.before.remove(plan.hook)
             elif kind == "reopen":
                 self.table = self.ds.load_table(self.table_path)
             else:
@@ -325,6 +365,8 @@ def gen_ops(rng: random.Random, n: int, alphabet: List[str]) -> List[Tuple[Any, 
             ops.append(("commit_tx",))
         elif k == "rollback_tx":
             ops.append(("rollback_tx",))
+        elif k == "readd":
+            ops.append(("readd", rng.choice(["ok", "fail", "abandon"])))
         elif k == "reopen":
             ops.append(("reopen",))
         else:
